@@ -71,6 +71,15 @@ Theorem C38_then_never_silent :
     then_chain (hb_then shipped_handback) d RaiseDryRun <> PyError.
 Proof. exact then_never_silent. Qed.
 
+(** (a') the context the sub-workflow starts from is the calling job's, with new_execution on and off,
+    for every config-level context, run() context and chain of update_context overrides *)
+Theorem C38_forwarded_context_is_callers :
+  forall (config run : ctx) (overrides : list ctx) (k : nat),
+    let fwd := job_context (run_context shipped_ctx_order (ctx_get config) (ctx_get run)) overrides in
+    sub_new_context shipped_ctx_order (ctx_get config) fwd k = fwd k /\
+    sub_extend_context fwd k = fwd k.
+Proof. exact forwarded_context_is_callers. Qed.
+
 (** (b) Job rows *)
 Theorem C38_extend_jobs_same_execution :
   forall ops r, In r (sub_rows shipped_wiring false ops) -> r_exec r = ECaller.
@@ -110,6 +119,11 @@ Example C38_nonvacuous :
   (* hand-back: a value, an error, in both modes *)
   /\ subrun_observed shipped_handback false (OErr 3) = Raise 3
   /\ subrun_observed shipped_handback true (OVal 4) = RetV 4
+  (* context: a caller override of a config-defined key reaches the sub-workflow; merged the other way round it would not *)
+  /\ sub_new_context shipped_ctx_order (ctx_get [(0, 7%Z)])
+        (job_context (run_context shipped_ctx_order (ctx_get [(0, 7%Z)]) (ctx_get [])) [[(0, 2%Z)]]) 0 = Some 2%Z
+  /\ sub_new_context RunThenConfig (ctx_get [(0, 7%Z)])
+        (job_context (run_context RunThenConfig (ctx_get [(0, 7%Z)]) (ctx_get [])) [[(0, 2%Z)]]) 0 = Some 7%Z
   (* rows: a sub-execution of four jobs, all under the caller *)
   /\ under_caller (sub_rows shipped_wiring false [NewTop; NewChild 0; NewChild 0; NewChild 2]) 4 (JInner 3) = true
   (* and a wiring without the stand-in parent job would detach them *)
@@ -124,6 +138,7 @@ Print Assumptions C38_get_cache_total.
 Print Assumptions C38_subrun_eq_direct.
 Print Assumptions C38_replayed_dict_eq_direct.
 Print Assumptions C38_then_never_silent.
+Print Assumptions C38_forwarded_context_is_callers.
 Print Assumptions C38_extend_jobs_same_execution.
 Print Assumptions C38_extend_jobs_under_caller.
 Print Assumptions C38_extend_root_is_child_of_caller.
